@@ -115,8 +115,7 @@ func (p *MultilineAction) Do(event *pipeline.Event) pipeline.ActionResult {
 	predictedLen := p.eventSize + predictionLookahead
 	shouldSplit := predictedLen > p.config.SplitEventSize
 	logFragmentLen := len(logFragment)
-	// an empty partial fragment (`""`, e.g. the CRI line "... stdout P " + "\n") is shorter than the tail being tested
-	isEnd := logFragmentLen >= 3 && logFragment[logFragmentLen-3:logFragmentLen-1] == newLine
+	isEnd := isLineEnd(logFragment)
 	if !isEnd && !shouldSplit {
 		sizeAfterAppend := len(p.eventBuf) + len(logFragment)
 		// check buffer size before append
@@ -223,6 +222,21 @@ func (p *MultilineAction) Do(event *pipeline.Event) pipeline.ActionResult {
 	p.resetLogBuf()
 
 	return pipeline.ActionPass
+}
+
+// isLineEnd reports whether the escaped (quoted) log fragment ends with an escaped newline,
+// i.e. with an 'n' preceded by an odd number of backslashes. A literal backslash followed
+// by 'n' (escaped as `\\n`) does not end the line, and an empty fragment (`""`) has no tail at all.
+func isLineEnd(fragment string) bool {
+	last := len(fragment) - 2 // the last byte inside the quotes
+	if last < 2 || fragment[last] != 'n' {
+		return false
+	}
+	slashes := 0
+	for i := last - 1; i > 0 && fragment[i] == '\\'; i-- {
+		slashes++
+	}
+	return slashes%2 == 1
 }
 
 func (p *MultilineAction) resetLogBuf() {
